@@ -318,15 +318,29 @@ def default_stop_rules_equal_reference(ctx):
     fac = ctx.func('mystic.termination:NormalizedChangeOverGeneration')
     eta = [s for s in fac.node.body if _assigns_name(s, 'eta')]
     b = T.Builder(env={'eta': T.term(eta[0].value)} if eta else {})
+    # the tolerance test: the (last) top-level `if` whose test, with the locals substituted, mentions the tolerance and eta
     test = None
     for st in n.node.body:
-        if isinstance(st, ast.Assign) and isinstance(st.targets[0], ast.Name) and st.targets[0].id == 'diff':
+        if isinstance(st, ast.Assign) and all(isinstance(tg, (ast.Name, ast.Tuple)) for tg in st.targets) and not (
+                isinstance(st.targets[0], ast.Name) and st.targets[0].id == 'info'):
             b.exec_stmt(st)
-        if isinstance(st, ast.If) and 'diff' in unparse(st.test):
-            test = T.simp(b.t(st.test))
+        if isinstance(st, ast.If):
+            tt_ = T.simp(b.t(st.test))
+            if 'tolerance' in T.show(tt_) and any(isinstance(x, tuple) and x and x[0] == 'cmp' and x[1] in ('<', '<=') for x in T.subterms(tt_)):
+                test = tt_
     ctx.need(test is not None, 'NCOG: tolerance test not found')
-    hg = T.term(ast.parse('hist[-gens]', mode='eval').body)
-    h1 = T.term(ast.parse('hist[-1]', mode='eval').body)
+    # roles by data flow: the history is the local read from inst.energy_history, the look-back is the name it is indexed by
+    hist_names = [k for k, v in b.env.items() if v == ('attr', ('name', n.args()[0]), 'energy_history')]
+    ctx.need(hist_names, 'NCOG: no local holds inst.energy_history')
+    hname = hist_names[0]
+    gname = None
+    for x in walk_no_nested(n.node):
+        if isinstance(x, ast.Subscript) and isinstance(x.value, ast.Name) and x.value.id == hname and isinstance(x.slice, ast.UnaryOp) and \
+                isinstance(x.slice.op, ast.USub) and isinstance(x.slice.operand, ast.Name):
+            gname = x.slice.operand.id
+    ctx.need(gname is not None, 'NCOG: look-back index not found')
+    hg = T.simp(b.t(ast.parse('%s[-%s]' % (hname, gname), mode='eval').body))
+    h1 = T.simp(b.t(ast.parse('%s[-1]' % hname, mode='eval').body))
     mapped = T.substitute(T.substitute(T.substitute(want, ('name', 'fx'), hg), ('name', 'fval'), h1), ('name', 'ftol'), ('name', 'tolerance'))
     ctx.stats['terms_compared'] += 1
     ctx.check(T.simp(mapped) == test, 'NormalizedChangeOverGeneration', 'tolerance test == reference 2(fx-fval) <= ftol(|fx|+|fval|)+1e-20',
